@@ -535,8 +535,13 @@ def check_item(item):
     seen = set()
     pats = patterns(m, item["tier"])
     opts = option_sets(m, item["placement"], item["tier"])
+    npat = 0
     for pattern in pats:
-        for opt in opts:
+        before = ncase
+        for opt in opts + [None]:
+            if opt is None:
+                npat += 1 if ncase > before else 0
+                continue
             if opt["times"] == "none" and item["placement"] != "default" and m > 1:
                 raise RuntimeError("option set inconsistent with placement")
             res = eval_case(item, pattern, opt, geo, cache)
@@ -556,7 +561,9 @@ def check_item(item):
                 seen.add(key)
                 out.append((name, detail, s, {"part": "grid", "item": item, "pattern": pattern, "opt": opt,
                                               "geo": list(geo)}))
-    return out, nev, ncase, skipped, maxdev, len(pats)
+    if ncase + skipped != len(pats) * len(opts):
+        raise RuntimeError("case count does not match the size of the declared product")
+    return out, nev, ncase, skipped, maxdev, npat
 
 
 # ------------------------------------------------------------------------------------------
